@@ -1232,6 +1232,49 @@ def rule_r14(prog, res):
               prog, Result)
 
 
+def rule_r15(prog, res):
+    res.rule('R15', 'a validation message that is built with % keeps an '
+             'escaped placeholder for the offending value: ValidationError '
+             'formats the message once more, so request text interpolated '
+             'into it beforehand is read as a format string')
+    n = 0
+    for fn in prog.all_functions():
+        if not fn.module.name.startswith('spyne.protocol'):
+            continue
+        for c in calls_in(fn.node):
+            if call_name(c) != 'ValidationError' or len(c.args) < 2:
+                continue
+            m = c.args[1]
+            if not (isinstance(m, ast.BinOp) and isinstance(m.op, ast.Mod)
+                    and isinstance(m.left, ast.Constant) and
+                    isinstance(m.left.value, str)):
+                continue
+            n += 1
+            ops = m.right.elts if isinstance(m.right, ast.Tuple) else [
+                m.right]
+            # the offending value itself, interpolated into a message that
+            # keeps no escaped placeholder for it
+            esc = '%%' in m.left.value
+            own = isinstance(c.args[0], ast.Name) and any(
+                isinstance(o, ast.Name) and o.id == c.args[0].id
+                for o in ops)
+            ok = esc or not own
+            where = '%s:%d' % (fn.module.relpath, c.lineno)
+            res.ob('R15', where, '%s: message %r %% %s' % (
+                fn.qualname, m.left.value[:40], unparse(m.right)[:30]),
+                'ok' if ok else 'VIOLATED')
+            if not ok:
+                res.finding('R15', '%s|message-preformatted|%s' % (
+                    fn.qualname, m.left.value[:30]), where, 'the message is '
+                    'formatted with %s before ValidationError formats it '
+                    'again with the value: a "%%" in that text (a wrapper key '
+                    'like "Derived%%") raises ValueError inside the '
+                    'constructor, which is no Fault - the disallowed '
+                    'substitution is answered with an unhandled error '
+                    'instead of Client.ValidationError' % unparse(m.right)[:40])
+    res.floor('R15', 'pre-formatted validation messages', n, 10)
+
+
 def run(prog, res, tier):
     guard_helpers(prog)
     res.run_rule(rule_r1, prog, res)
@@ -1248,6 +1291,7 @@ def run(prog, res, tier):
     res.run_rule(rule_r12, prog, res)
     res.run_rule(rule_r13, prog, res)
     res.run_rule(rule_r14, prog, res)
+    res.run_rule(rule_r15, prog, res)
 
 
 _X = 'spyne/protocol/xml.py'
@@ -1257,6 +1301,15 @@ _Y = 'spyne/protocol/yaml.py'
 _C = 'spyne/model/complex.py'
 
 MUTANTS = [
+    Mutant('wrapper-key-interpolated-into-message', 'R15', 'fire',
+           'spyne/protocol/dictdoc/hier.py',
+           in_func('HierDictDocument._doc_to_object',
+                   "\"Class name %%r is not registered as a subclass of %r\" %\n"
+                   "                                                            "
+                   "cls.get_type_name())",
+                   "\"Class name %r is not registered as a subclass of %r\" %\n"
+                   "                        (class_name, cls.get_type_name()))"),
+           'message-preformatted'),
     Mutant('array-items-one-direction', 'R13', 'fire',
            'spyne/protocol/_base.py',
            in_func('ProtocolMixin.is_substitutable',
